@@ -365,6 +365,11 @@ fn templates_src() -> Vec<(&'static str, Vec<Clause>)> {
         ("fmt", vec![
             fact("fmt", vec![atom("%s is big; ")]), fact("fmt", vec![atom("<%s>")]), fact("fmt", vec![atom("plain ")]), fact("fmt", vec![atom("%s")]),
         ]),
+        // ground facts holding literal lists, called with list patterns whose tail is already bound
+        ("route", vec![
+            fact("route", vec![list(vec![atom("a"), atom("b"), atom("c")])]), fact("route", vec![list(vec![atom("a")])]), fact("route", vec![list(vec![])]),
+            fact("route", vec![list(vec![atom("b"), list(vec![atom("c")])])]),
+        ]),
         // terminating recursion through negation, the same predicate negated at every level
         ("win", vec![
             fact("move", vec![atom("a"), atom("b")]), fact("move", vec![atom("b"), atom("c")]), fact("move", vec![atom("c"), atom("d")]), fact("move", vec![atom("a"), atom("e")]),
@@ -422,6 +427,12 @@ impl<'r> ProgGen<'r> {
                      else { call("app", vec![self.ground_list(), self.ground_list(), self.cvar()]) },
             "len" => call("len", vec![self.ground_list(), self.cvar()]),
             "down" => call("down", vec![T::Int(self.r.below(4) as i64), self.cvar()]),
+            "route" => {
+                let t = self.cvar();
+                let tailv = [list(vec![atom("b"), atom("c")]), list(vec![]), list(vec![atom("c")]), list(vec![list(vec![atom("c")])])][self.r.below(4)].clone();
+                let first = [atom("a"), atom("b"), self.cvar()][self.r.below(3)].clone();
+                G::And(vec![G::Unify(t.clone(), tailv), call("route", vec![mk_list(vec![first], Some(t))])])
+            }
             "win" => call("win", vec![if self.r.chance(1, 2) { self.cvar() } else { atom(["a", "b", "c", "d", "e"][self.r.below(5)]) }]),
             "even" => call("even", vec![T::Int(self.r.below(5) as i64)]),
             "fmt" => { let f = self.cvar(); G::And(vec![call("fmt", vec![f.clone()]), G::Print(vec![f, self.constant()])]) }
